@@ -262,3 +262,101 @@ def direct_eq(p, pp, mp, byte, ignore_pp=False):
     if ppp == "v":
         return pp in ("", "66")
     return ppp == pp
+
+
+def run_modmr(chk, emit, enc_enum):
+    """the alternative (MR) opcode selected by the mod_mr() option for an all-register form exists for registers"""
+    from .regions import Regions
+    from .must import branch_atoms
+    R = "R-MODMR-REG-FORM"
+    chk.rule(R, "x86 _emit: where an all-register form switches to another opcode under InstOptions::kX86_ModMR (alternative opcode of the row, or "
+                "the main opcode plus a constant), every instruction of that encoding class has a database form with that opcode byte whose "
+                "operands can all be registers - an opcode that only exists with a memory operand is never emitted with mod=11")
+    f = chk.facts("asmjit/x86/x86instdb.cpp",
+                  tables=r"asmjit::x86::InstDB::(_inst_info_table|main_opcode_table|alt_opcode_table)$",
+                  enums=r"asmjit::x86::Inst::Id$|asmjit::x86::Opcode::Bits$")
+    B = {n: v for n, v in f["enums"]["asmjit::x86::Opcode::Bits"]["enumerators"]}
+    ids = {}
+    for n_, v_ in f["enums"]["asmjit::x86::Inst::Id"]["enumerators"]:
+        ids.setdefault(v_, n_)
+    rows = f["tables"]["asmjit::x86::InstDB::_inst_info_table"]["value"]
+    main = f["tables"]["asmjit::x86::InstDB::main_opcode_table"]["value"]
+    alt = f["tables"]["asmjit::x86::InstDB::alt_opcode_table"]["value"]
+    enc_name = {v: n for n, v in enc_enum["enumerators"]}
+    db = load_db(chk)
+    by_name = {}
+    for e in db:
+        if set(e.get("ext") or ()) & {"APX_F", "AVX10_1", "AVX10_2"}:
+            continue
+        e["_p"] = parse_opcode_string(e["op"])
+        by_name.setdefault(e["name"], []).append(e)
+    reg = Regions(emit)
+    atoms = branch_atoms(emit)
+    arch_ok = core.load_json("rules/x86_modmr.json")["register_form_exists"]
+    sites = []
+    for b, (atom, pol) in sorted(atoms.items()):
+        t = emit.text(atom)
+        if "kX86_ModMR" not in t or "kX86_ModRM" in t:
+            continue
+        succs = emit.blocks[b]["succs"]
+        if len(succs) != 2 or None in succs:
+            continue
+        # the atom may be the first operand of `!test(..) || ...`: the ModMR-true edge is the one on which test() holds
+        mr_b = succs[0] if pol else succs[1]
+        kind = None
+        label_blocks = {bb["id"] for bb in emit.blocks.values() if bb.get("label") and bb["label"].get("kind") == "label"}
+        frontier, seen = [(mr_b, 0)], set()
+        while frontier and kind is None:
+            cur, depth = frontier.pop(0)
+            if cur is None or cur in seen or cur in label_blocks or depth > 3:
+                continue
+            seen.add(cur)
+            for el in emit.blocks[cur]["elems"]:
+                if not isinstance(el, int):
+                    continue
+                x = emit.e(el)
+                if x["k"] in ("opcall", "binop") and "alt_opcode_of" in emit.text(el) and "opcode" in emit.text(el).split("=")[0]:
+                    kind = ("alt", 0)
+                elif x["k"] == "mcall" and x.get("cn") == "add" and x.get("args") and "opcode" in emit.text(x.get("obj", 0)):
+                    c = emit.e(emit.strip(x["args"][0]))
+                    if c is not None and isinstance(c.get("cv"), int):
+                        kind = ("main+", c["cv"])
+            frontier += [(s_, depth + 1) for s_ in emit.blocks[cur]["succs"] if s_ is not None]
+        line = emit.line_of(atom)
+        classes = [r[5:] for r in reg.group_of_line(line) if r.startswith("case:")]
+        if kind and classes:
+            sites.append((line, classes, kind))
+    chk.floor(R + ":sites", len(sites), 1)
+    n = 0
+    for line, classes, kind in sites:
+        for rid, row in enumerate(rows):
+            enc = enc_name.get(row["_encoding"], "?")
+            if enc not in classes:
+                continue
+            name = (ids.get(rid, "") or "")[3:].lower()
+            forms = by_name.get(name)
+            if not forms:
+                continue
+            if kind[0] == "alt":
+                a = alt[row["_alt_opcode_index"]]
+                if not a:
+                    continue            # the code only switches when an alternative opcode exists
+                byte = a & 0xFF
+            else:
+                byte = ((main[row["_main_opcode_index"]] | row["_main_opcode_value"]) & 0xFF) + kind[1]
+            mbyte = (main[row["_main_opcode_index"]] | row["_main_opcode_value"]) & 0xFF
+            base_reg = [e for e in forms if e["_p"] and e["_p"]["bytes"] and e["_p"]["bytes"][-1] == mbyte and
+                        all(o.get("reg") for o in e["ops"] if not o.get("implicit"))]
+            if not base_reg:
+                continue            # the mnemonic has no all-register form at all: such operands are invalid input, not a mod_mr() matter
+            n += 1
+            with_byte = [e for e in forms if e["_p"] and e["_p"]["bytes"] and e["_p"]["bytes"][-1] == byte]
+            regform = [e for e in with_byte if all(o.get("reg") for o in e["ops"] if not o.get("implicit"))]
+            if not regform and name in arch_ok:
+                chk.ob(R, "%s|%s@%d" % (name, kind[0], kind[1]), True, loc="asmjit/x86/x86assembler.cpp:%d" % line, detail="accepted: " + arch_ok[name])
+                continue
+            chk.ob(R, "%s|%s@%d" % (name, kind[0], kind[1]), bool(regform), loc="asmjit/x86/x86assembler.cpp:%d" % line,
+                   detail="`%s`: under mod_mr() the all-register form is emitted with opcode byte %02X, which the database only knows as %s - there "
+                          "is no register form of that opcode (mod=11 is undefined)" % (name, byte, "; ".join(", ".join(o["s"] for o in e["ops"]) for e in with_byte[:2]) or "nothing"),
+                   key="modmr|%s" % name)
+    chk.floor(R + ":instructions", n, 3)
